@@ -18,6 +18,10 @@ def run(tier, seed, replay_path=None):
                        'record size = 24-byte header + value length', 'library models of DESIGN 3.3']
     PC.run_c15_step(ck, tier)
     PC.run_c15_bmc(ck, tier)
+    # two clients: accounting after a store racing a delete / a get of the same (initially absent) key
+    from . import C16
+    for name in ('evicting set||delete', 'set||get (policy)'):
+        C16.run_item(ck, ('policy', name), tier)
     return ck.finish()
 
 
